@@ -390,4 +390,42 @@ theorem iecGo_length (rows : List (Nat × Nat × Nat × Nat × Bytes)) (h : iecT
       exact iecBoundOK_sound 6 _ _ _ _ h.1.2 n this
     · exact ih h.2
 
+/-! ### `formatIEC`: the compared value is a `double` -/
+
+/-- the largest value of `n = (double) s` that satisfies `n < num/den`: for an integer bound that is itself a
+`double` of a binade with unit `2^t`, the `double` in front of it; otherwise the largest integer below the bound -/
+def iecRowBound (num den : Nat) : Nat :=
+  if den = 1 ∧ 2 ^ (num.log2 - 52) ∣ num ∧ 2 ^ (52 + (num.log2 - 52)) + 2 ^ (num.log2 - 52) ≤ num
+  then num - 2 ^ (num.log2 - 52) else (num - 1) / den
+
+theorem iecRowBound_sound (num den s : Nat) (hden : 0 < den) (h : rnInt s * den < num) : rnInt s ≤ iecRowBound num den := by
+  unfold iecRowBound
+  split
+  · rename_i hc
+    obtain ⟨h1, h2, h3⟩ := hc
+    subst h1
+    have := rnInt_lt_rep s num (num.log2 - 52) h2 h3 (by simpa using h)
+    omega
+  · rw [Nat.le_div_iff_mul_le hden]; omega
+
+def iecTableCheckD : List (Nat × Nat × Nat × Nat × Bytes) → Bool
+  | [] => iecBoundOK 6 (2 ^ 63) iecLast.1 iecLast.2.1 iecLast.2.2
+  | row :: rest =>
+    decide (0 < row.2.1) && iecBoundOK 6 (iecRowBound row.1 row.2.1) row.2.2.1 row.2.2.2.1 row.2.2.2.2 && iecTableCheckD rest
+
+theorem iecGo_length_double (rows : List (Nat × Nat × Nat × Nat × Bytes)) (h : iecTableCheckD rows = true) (s : Nat)
+    (hn : rnInt s ≤ 2 ^ 63) : (iecGo (rnInt s) rows).length ≤ 6 := by
+  induction rows with
+  | nil => exact iecBoundOK_sound 6 _ _ _ _ h _ hn
+  | cons row rest ih =>
+    obtain ⟨num, den, k, j, u⟩ := row
+    simp only [iecTableCheckD, Bool.and_eq_true, decide_eq_true_eq] at h
+    simp only [iecGo]
+    split
+    · rename_i hc
+      exact iecBoundOK_sound 6 _ _ _ _ h.1.2 _ (iecRowBound_sound num den s h.1.1 hc)
+    · exact ih h.2
+
+theorem iecTable_ok : iecTableCheckD iecTable = true := by decide +kernel
+
 end MuduoVerif.LogStream
